@@ -1,1 +1,2 @@
+pub mod asmtext;
 pub mod prog;
